@@ -227,7 +227,12 @@ def run_impl(seq, sds, P_eval, P_stop, patience, crit, tol, epochs, kind, throug
         if through_fit:
             rec = CB.LambdaCallback(on_epoch_end=lambda s, e: eps.append(e))
             extra = dict(scheduler=torch.optim.lr_scheduler.StepLR, scheduler_args=dict(step_size=1, gamma=0.5)) if through_fit == "sched" else {}
-            st.fit(torch.tensor([[0.0], [1.0]], dtype=torch.double), epochs=epochs, pos_batch_size=2, lr=0.0, callbacks=[ev, es, rec], **extra)
+            cbs_ = [ev, es, rec]
+            if through_fit == "two-stoppers":
+                # a second stopper on the same evaluator that is eligible at the same epochs but can never be satisfied
+                # (tolerance 0): it must not take back the request the first one made
+                cbs_ = [ev, es, CB.EarlyStopping(P_stop, 0.0, patience, ev, "Q", criterion="absolute"), rec]
+            st.fit(torch.tensor([[0.0], [1.0]], dtype=torch.double), epochs=epochs, pos_batch_size=2, lr=0.0, callbacks=cbs_, **extra)
         else:
             for e in range(1, epochs + 1):
                 ev.on_epoch_end(st, e)
@@ -241,6 +246,10 @@ def run_impl(seq, sds, P_eval, P_stop, patience, crit, tol, epochs, kind, throug
     stopped = st.stop_training
     st.stop_training = False
     return (eps[-1] if stopped else None), es.last_epoch, len(eps)
+
+
+def stopper_ok(crit):
+    return True
 
 
 def check(acc, seq, patience, Pe, Ps, crit, tol, kind, through_fit, flagged, stopper="EarlyStopping"):
@@ -481,6 +490,8 @@ def run_item(item):
                                 if (Pe, Ps) == (1, 1):
                                     # the same run with a learning-rate scheduler attached: a stop raised at an epoch end still ends the run
                                     check(acc, seq, patience, Pe, Ps, crit, tol, kind, "sched", flagged)
+                                    if stopper_ok(crit):
+                                        check(acc, seq, patience, Pe, Ps, crit, tol, kind, "two-stoppers", flagged)
                             if crit == "variance" and Pe == 1:
                                 check(acc, seq, patience, Pe, Ps, crit, tol, kind, False, flagged, stopper="VarianceBasedEarlyStopping")
                                 if Ps == 1:
